@@ -91,7 +91,7 @@ class C13(Prop):
         big = tier == "thorough"
         return gen_ir.Cfg(unnamed=True, alphabet=NAMES, max_defs=6 if big else 5,
                           max_children=4 if big else 3, max_width=2, share=True, top="always",
-                          top_modes=["standalone", "definition"], data=False)
+                          top_modes=["standalone", "definition"], data=False, noref_children=True)
 
     def strategy(self, tier):
         return st.fixed_dictionaries({
